@@ -36,6 +36,10 @@ var Exclude = gen.IterExclude{}
 
 func (Engine) Gen(seed uint64, idx int, tier string) interface{} {
 	r := simrt.NewRand(simrt.Mix(seed, 0x05, uint64(idx)))
+	gen.Scale = 1
+	if tier == "thorough" && r.Chance(1, 2) {
+		gen.Scale = 2
+	}
 	sc := &Scenario{Prog: gen.GenIter(r, Exclude), Order: simrt.MapOrder{Kind: r.Intn(4), K: r.Uint64()}}
 	return sc
 }
